@@ -173,6 +173,62 @@ def decl_module(d, ops_wanted):
             arms.append('"from_str" => guard(|| { let s = <String as Arg>::parse(arg); let p = <Inner as FromStr>::from_str(s.as_str()); let o = match &p { Ok(x) => x.show(), Err(_) => "none".to_string() }; let c = match p { Ok(raw) => { %s }, Err(_) => "-".to_string() }; format!("{} ## {} ## {}", %s, o, c) }),' % (ctor, m))
     if "Default" in info.traits and info.has_default:
         arms.append('"default" => guard(|| ok(TT::default().into_inner())),')
+    mk = "TT::try_new(%s).ok()" if info.has_validation else "Some(TT::new(%s))"
+    # ---- comparison traits on pairs (C12, C13)
+    cmpf = []
+    if "PartialEq" in info.traits:
+        cmpf.append('out.push_str(&format!("eq={} ieq={} ", b(tx == ty), b(ix == iy)));')
+    if "PartialOrd" in info.traits:
+        cmpf.append('out.push_str(&format!("pcmp={} ipcmp={} ", ord_s(tx.partial_cmp(&ty)), ord_s(ix.partial_cmp(&iy))));')
+    if "Ord" in info.traits:
+        if inner in FLOAT_TYPES:
+            cmpf.append('out.push_str(&format!("cmp={} icmp={} ", ord_s(Some(tx.cmp(&ty))), ord_s(ix.partial_cmp(&iy))));')
+        else:
+            cmpf.append('out.push_str(&format!("cmp={} icmp={} ", ord_s(Some(tx.cmp(&ty))), ord_s(Some(ix.cmp(&iy)))));')
+    if "Hash" in info.traits:
+        cmpf.append('out.push_str(&format!("h={} ", b(hash_of(&tx) == hash_of(&ix))));')
+        if inner == "String":
+            cmpf.append('out.push_str(&format!("hstr={} ", b(hash_of(&tx) == hash_of(ix.as_str()))));')
+    if cmpf:
+        arms.append('"cmp2" => guard(|| { let (a1, a2) = pair_args(arg); let x = <Inner as Arg>::parse(&a1); let y = <Inner as Arg>::parse(&a2); '
+                    'let (tx, ty) = match (%s, %s) { (Some(p), Some(q)) => (p, q), _ => return "rejected".to_string() }; '
+                    'let ix = %s.unwrap().into_inner(); let iy = %s.unwrap().into_inner(); let mut out = String::new(); %s out.trim_end().to_string() }),'
+                    % (mk % "x.clone()", mk % "y.clone()", mk % "x.clone()", mk % "y.clone()", " ".join(cmpf)))
+    # ---- views (C13)
+    vf = []
+    if "AsRef" in info.traits:
+        if inner == "String":
+            vf.append('out.push_str(&format!("as_ref={} ", b(<TT as AsRef<str>>::as_ref(&t) == i.as_str())));')
+        else:
+            vf.append('out.push_str(&format!("as_ref={} ", b(<TT as AsRef<Inner>>::as_ref(&t).same(&i))));')
+    if "Deref" in info.traits:
+        vf.append('out.push_str(&format!("deref={} ", b((*t).same(&i))));')
+    if "Borrow" in info.traits:
+        vf.append('out.push_str(&format!("borrow={} ", b(<TT as core::borrow::Borrow<Inner>>::borrow(&t).same(&i))));')
+        if inner == "String":
+            vf.append('out.push_str(&format!("borrow_str={} ", b(<TT as core::borrow::Borrow<str>>::borrow(&t) == i.as_str())));')
+    if "Display" in info.traits:
+        vf.append('out.push_str(&format!("display={} ", b(t.to_string() == i.to_string())));')
+    if "Clone" in info.traits:
+        vf.append('out.push_str(&format!("clone={} ", b(t.clone().into_inner().same(&i))));')
+    if "Copy" in info.traits:
+        vf.append('{ let c = t; out.push_str(&format!("copy={} ", b(c.into_inner().same(&i) && t.into_inner().same(&i)))); }')
+    if "IntoIterator" in info.traits:
+        vf.append('out.push_str(&format!("iter_ref={} ", b((&t).into_iter().cloned().collect::<Vec<_>>() == i.clone().into_iter().collect::<Vec<_>>())));')
+    if "Into" in info.traits:
+        vf.append('{ let conv: Inner = t.clone().into(); out.push_str(&format!("into={} ", b(conv.same(&i)))); }' if "Clone" in info.traits else "")
+    if "IntoIterator" in info.traits and "Clone" in info.traits:
+        vf.append('out.push_str(&format!("iter_val={} ", b(t.clone().into_iter().collect::<Vec<_>>() == i.clone().into_iter().collect::<Vec<_>>())));')
+    if vf:
+        ieq = "i.to_bits() == i.to_bits()" if inner in FLOAT_TYPES else "true"
+        arms.append('"views" => guard(|| { let x = <Inner as Arg>::parse(arg); let t = match %s { Some(t) => t, None => return "rejected".to_string() }; '
+                    'let i: Inner = %s.unwrap().into_inner(); let mut out = String::new(); %s out.trim_end().to_string() }),'
+                    % (mk % "x.clone()", mk % "x.clone()", " ".join(vf)))
+    if "Arbitrary" in info.traits:
+        arms.append('"arb" => { let a = arg.to_string(); watchdog(move || guard(|| { let bytes = bytes_arg(&a); let mut u = arbitrary::Unstructured::new(&bytes); match <TT as arbitrary::Arbitrary>::arbitrary(&mut u) { Ok(v) => ok(v.into_inner()), Err(_) => "arb_err".to_string() } })) },')
+        if inner in INT_TYPES:
+            ins = "if let Ok(t) = TT::try_new(v) { valid.insert(t.into_inner()); }" if info.has_validation else "valid.insert(TT::new(v).into_inner());"
+            arms.append(ARB_COVER.replace("CTOR_INSERT", ins))
     for extra in getattr(d, "extra_arms", []):
         arms.append(extra)
     lines.append("    pub fn run(op: &str, arg: &str) -> String {")
@@ -184,6 +240,32 @@ def decl_module(d, ops_wanted):
     lines.append("    }")
     lines.append("}")
     return "\n".join(lines)
+
+
+ARB_COVER = r'''"arb_cover" => guard(|| {
+                // arg: "(w <len> <window lo> <window hi>)": every byte string of that length through the
+                // generator, every value of the window through the constructor
+                let parts: Vec<&str> = arg.trim_matches(|c| c == '(' || c == ')').split_whitespace().collect();
+                let len: usize = parts[1].parse().unwrap();
+                let wlo: Inner = parts[2].parse().unwrap();
+                let whi: Inner = parts[3].parse().unwrap();
+                let mut produced = std::collections::BTreeSet::new();
+                let mut panics = 0u32; let mut errs = 0u32;
+                let total: u32 = 1u32 << (8 * len);
+                for n in 0..total {
+                    let bytes: Vec<u8> = (0..len).map(|k| ((n >> (8 * (len - 1 - k))) & 0xff) as u8).collect();
+                    let r = std::panic::catch_unwind(|| { let mut u = arbitrary::Unstructured::new(&bytes); <TT as arbitrary::Arbitrary>::arbitrary(&mut u).map(|v| v.into_inner()) });
+                    match r { Ok(Ok(v)) => { produced.insert(v); }, Ok(Err(_)) => errs += 1, Err(_) => panics += 1 }
+                }
+                let mut valid = std::collections::BTreeSet::new();
+                let mut v: Inner = wlo;
+                loop { CTOR_INSERT if v == whi { break; } v += 1; }
+                let missing = valid.iter().find(|x| !produced.contains(x)).map(|x| x.to_string()).unwrap_or("-".to_string());
+                let extra = produced.iter().find(|x| !valid.contains(x)).map(|x| x.to_string()).unwrap_or("-".to_string());
+                format!("cover n={} min={} max={} panics={} errs={} valid_n={} missing={} extra={}", produced.len(),
+                    produced.iter().next().map(|x| x.to_string()).unwrap_or("-".to_string()),
+                    produced.iter().next_back().map(|x| x.to_string()).unwrap_or("-".to_string()), panics, errs, valid.len(), missing, extra)
+            }),'''
 
 
 MAIN_RS = r'''
